@@ -12,6 +12,10 @@ CHECKS = {
    text="Proof: every method of eq, ord, From, ContraMap, monoid and semigroup.From is verified against the model the property gives it (==, built-in <, wrapped function with arguments in order, base instance on projections); monoid.From/FromOp against Empty/Combine postconditions; the package-level instances Int/String are checked to be values of the verified types; order/equivalence laws are lemmas over the models. Integer arithmetic would carry overflow obligations.",
    note="Trusted: as C20; < on an uninterpreted ordered sort stands for the built-in order of ints and strings (strict total order axioms; floats are outside the property).",
    tech="contract-based deductive verification: interface method models, behavioural-subtyping obligations, SMT lemmas", ref="6/C17"),
+ "C19": dict(
+   text="Proof: seq.Seq[F_,A] is given one abstract contract (element list elems(s), representation invariant wf(s)); every method of list.Trait and slice.Trait is verified against it (behavioural subtyping) and Foldable.Fold against the left fold from Empty() using only the interface contract, with loop invariants and decreases; list lemmas used are re-proved by induction (cvc5 --quant-ind) on every run. Persistence is a side condition of the memory models: a store into an ADT cell or an append/store to a non-fresh slice fails a model: obligation.",
+   note="Trusted: as C20; linked-list cells are modelled as an algebraic datatype and slices as mathematical sequences (side conditions checked syntactically on every run); integer overflow of the length field is not checked (would need 2^63 elements).",
+   tech="contract-based deductive verification: ADT/sequence memory abstractions with checked side conditions, interface refinement, inductive lemma library", ref="6/C19"),
 }
 
 NA_REASON = "check not built yet in this session (engine under construction; build order in DESIGN.md section 12)"
